@@ -11,6 +11,6 @@ open SpatialId
 
 theorem HorizontalZoomMinMax_eq (zi x y zo : Int) : Gen.HorizontalZoomMinMax zi x y zo = hZoomMinMax zi x y zo := by
   unfold Gen.HorizontalZoomMinMax hZoomMinMax
-  (try simp only [Id.run, id_pure]) <;> tie_auto
+  (try simp only [Id.run, id_pure, gen_helper]) <;> tie_auto
 
 end SpatialId.Tie
